@@ -69,12 +69,20 @@ pub fn run(ctx: &Ctx) -> Outcome {
         for (ivn, iv) in iv_variants(seed, iv_len).into_iter().skip(tier.pick(1, 0)) {
             let datas = data_variants(seed, 0xC15, l);
             for (dn, ct) in &datas {
-                let pieces = [p(l, Kind::InPlace)];
-                let Ok(Ok(base)) = std::panic::catch_unwind(std::panic::AssertUnwindSafe(|| (dec.run)(key, &iv, ct, &pieces, &pre))) else {
-                    rep.case(|| (dec.run)(key, &iv, ct, &pieces, &pre).map(|_| ()));
+              // the same experiment under several call schedules on one object: one call; one unit, then the rest;
+              // a unit-aligned short call, then the rest (the shape must not depend on how the data was fed)
+              let mut schedules: Vec<Vec<P>> = vec![vec![p(l, Kind::InPlace)]];
+              if dec.multi && l >= 3 * u {
+                  schedules.push(vec![p(u, Kind::InPlace), p(l - u, Kind::InPlace)]);
+                  schedules.push(vec![p(2 * u, Kind::B2b), p(l - 2 * u, Kind::InPlace)]);
+              }
+              for pieces in &schedules {
+                let pieces = &pieces[..];
+                let Ok(Ok(base)) = std::panic::catch_unwind(std::panic::AssertUnwindSafe(|| (dec.run)(key, &iv, ct, pieces, &pre))) else {
+                    rep.case(|| (dec.run)(key, &iv, ct, pieces, &pre).map(|_| ()));
                     continue;
                 };
-                let base_enc = (enc.run)(key, &iv, ct, &pieces, &pre).map(|o| o.out).unwrap_or_default();
+                let base_enc = (enc.run)(key, &iv, ct, pieces, &pre).map(|o| o.out).unwrap_or_default();
                 rep.outcome(&base.out);
                 for j in 0..n_units {
                     for (dname, delta) in deltas(u) {
@@ -85,7 +93,7 @@ pub fn run(ctx: &Ctx) -> Outcome {
                         let (want2, _) = family_ref(cfg, fam, dec_dir, key, &iv, &ct2);
                         let coin = std::cell::Cell::new(0u64);
                         let ok = rep.case(|| {
-                            let got = (dec.run)(key, &iv, &ct2, &pieces, &pre)?;
+                            let got = (dec.run)(key, &iv, &ct2, pieces, &pre)?;
                             ensure!(got.out == want2, format!("perturbed_output_wrong/{}", fam), "{} iv={} data={}: decrypting the ciphertext with difference {} at unit {} gives {} want {} (first diff at byte {:?})", dec.ty, ivn, dn, dname, j, short(&got.out), short(&want2), first_diff(&got.out, &want2));
                             let diff: Vec<u8> = got.out.iter().zip(&base.out).map(|(a, b)| a ^ b).collect();
                             let unit = |i: usize| &diff[i * u..(i + 1) * u];
@@ -135,13 +143,14 @@ pub fn run(ctx: &Ctx) -> Outcome {
                         // causality for the encryption direction
                         if !stream_fam {
                             rep.case(|| {
-                                let got = (enc.run)(key, &iv, &ct2, &pieces, &pre)?;
+                                let got = (enc.run)(key, &iv, &ct2, pieces, &pre)?;
                                 ensure!(got.out[..j * u] == base_enc[..j * u], format!("output_depends_on_later_input/{}-enc", fam), "{}: changing input unit {} changed output before it", enc.ty, j);
                                 Ok(())
                             });
                         }
                     }
                 }
+              }
             }
             // keystream independence of the data (stream modes), and identical backend call shapes across data
             if stream_fam {
@@ -180,7 +189,7 @@ pub fn run(ctx: &Ctx) -> Outcome {
         rep.finish()
     });
     let mut o = merge(reports);
-    o.rule = "stateless exhaustive: mode x configuration x IV x data x n units (blocks; bytes for CFB-8 and the stream modes) x position j x difference delta (every single-bit flip of the unit for units <= 8 bytes, else bits {0,1,7,8,mid,last-1,last}, a full byte, a full unit); oracle: dec(c xor delta@j) equals the reference exactly AND the difference to dec(c) has the prescribed support (CBC: block j changed, block j+1 = delta, rest equal; CFB: block j = delta, block j+1 changed, rest equal; CFB-8: byte j = delta, changes confined to the next bs bytes; CTR/OFB/BelT: only delta at j; PCBC/IGE: block j changed, later blocks as the reference predicts); causality for both directions; stream modes: output xor input and end state identical for every ordered pair of data patterns; backend call shapes identical across data patterns. Non-zero claims only where bijectivity guarantees them".into();
+    o.rule = "stateless exhaustive: mode x configuration x IV x data x n units (blocks; bytes for CFB-8 and the stream modes) x call schedule (one call; one unit then the rest; two units b2b then the rest) x position j x difference delta (every single-bit flip of the unit for units <= 8 bytes, else bits {0,1,7,8,mid,last-1,last}, a full byte, a full unit); oracle: dec(c xor delta@j) equals the reference exactly AND the difference to dec(c) has the prescribed support (CBC: block j changed, block j+1 = delta, rest equal; CFB: block j = delta, block j+1 changed, rest equal; CFB-8: byte j = delta, changes confined to the next bs bytes; CTR/OFB/BelT: only delta at j; PCBC/IGE: block j changed, later blocks as the reference predicts); causality for both directions; stream modes: output xor input and end state identical for every ordered pair of data patterns; backend call shapes identical across data patterns. Non-zero claims only where bijectivity guarantees them".into();
     o.configs = cfgs.iter().map(|c| c.name.clone()).collect();
     o.bounds = vec![("blocks".into(), J::Int(tier.pick(6, 9))), ("bytes_for_byte_modes".into(), J::Str(tier.pick("min(2*bs+3, 40)", "min(3*bs+3, 80)").into()))];
     o
